@@ -78,7 +78,7 @@ impl Runner {
                 }
                 format!("queries {:?}", answers)
             }
-            TxKind::Slash { .. } => "skip".into(),
+
             _ => {
                 let out = self.w.run_variant(&tx, &none);
                 out.actual
